@@ -10,6 +10,7 @@ to compose strategies given multiple checks specified in a schema.
 
 See the :ref:`user guide <data-synthesis-strategies>` for more details.
 """
+import math
 import operator
 import re
 import warnings
@@ -37,7 +38,9 @@ from pandera.dtypes import (
     is_complex,
     is_datetime,
     is_float,
+    is_int,
     is_timedelta,
+    is_uint,
 )
 from pandera.engines import numpy_engine, pandas_engine
 from pandera.errors import BaseStrategyOnlyError, SchemaDefinitionError
@@ -571,6 +574,18 @@ def in_range_strategy(
     :returns: ``hypothesis`` strategy
     """
     if strategy is None:
+        if is_int(pandera_dtype) or is_uint(pandera_dtype):
+            # integer strategies have no exclusive bounds (exclude_min and
+            # exclude_max are ignored for them): shrink the interval instead.
+            return pandas_dtype_strategy(
+                pandera_dtype,
+                min_value=(
+                    min_value if include_min else math.floor(min_value) + 1
+                ),
+                max_value=(
+                    max_value if include_max else math.ceil(max_value) - 1
+                ),
+            )
         return pandas_dtype_strategy(
             pandera_dtype,
             min_value=min_value,
